@@ -57,6 +57,26 @@ def classify(start, end):
         return c
     if shape(start) != shape(end):
         return "K7-regrouping"
+    # same shape, but one dimension occurs in numerator AND denominator of a unit (ft^3/m^2, A^3/C^2 with
+    # A, C both lengths): the planner pairs numerator factors with numerator factors by position; when
+    # the pair needs a multi-hop path the partially reduced plan no longer lines up -> AssertionError
+    for u in (start, end):
+        signs = collections.defaultdict(set)
+        for f, e in u.factors.items():
+            if f is not One:
+                signs[f.dimension].add(e > 0)
+        if any(len(v) == 2 for v in signs.values()):
+            return "K8-same-dimension-both-signs"
+    # two or more distinct factors of one dimension on the same side of the fraction (m*ft -> yd*in): the
+    # planner pairs them in the order of the units' factor mappings, and that order is fixed by whichever
+    # expression first interned the unit (m*ft or ft*m) - with the "wrong" order no path is found
+    for u in (start, end):
+        count = collections.Counter()
+        for f, e in u.factors.items():
+            if f is not One:
+                count[(f.dimension, e > 0)] += 1
+        if any(v >= 2 for v in count.values()):
+            return "K9-ambiguous-pairing"
     return None
 
 
